@@ -57,7 +57,12 @@ def log(*a):
 
 
 class Keys:
-	"""z3 integer variables k0, k1, ...; relations decided lazily and memoised"""
+	"""z3 integer variables k0, k1, ...: each key is ONE symbolic character (a Unicode scalar
+	value >= 'A'), so that the two orders the crate uses are both available and may disagree:
+	  eq    same key
+	  lts   `str` / code-point order        (Object::sort, derived Ord of Entry)
+	  lt16  UTF-16 code-unit order          (canonical_cmp, RFC 8785)
+	Relations are decided lazily by z3 and memoised."""
 
 	def __init__(self):
 		self.vars = []
@@ -69,10 +74,33 @@ class Keys:
 		self.vars.append(z3.Int("k%d" % len(self.vars)))
 		return len(self.vars) - 1
 
+	def dom(self, v):
+		return z3.And(v >= 0x41, v <= 0x10FFFF, z3.Or(v < 0xD800, v > 0xDFFF))
+
+	def u16(self, v):
+		# sort key of a one-character string under UTF-16 code-unit order: supplementary
+		# characters (surrogate pairs, first unit D800..DBFF) sort between U+D7FF and U+E000
+		return z3.If(v >= 0x10000, 0xD800 * 0x110000 + (v - 0x10000), v * 0x110000)
+
 	def expr(self, rel):
 		op, a, b = rel
 		x, y = self.vars[a], self.vars[b]
-		return (x == y) if op == "eq" else (x < y)
+		if op == "eq":
+			return x == y
+		if op == "lts":
+			return x < y
+		return self.u16(x) < self.u16(y)
+
+	def solver_for(self, decisions):
+		s = z3.Solver()
+		used = set()
+		for (op, a, b), t in decisions:
+			used |= {a, b}
+			e = self.expr((op, a, b))
+			s.add(e if t else z3.Not(e))
+		for i in used:
+			s.add(self.dom(self.vars[i]))
+		return s
 
 	def sides(self, decisions, rel):
 		key = (decisions, rel)
@@ -82,10 +110,7 @@ class Keys:
 		t0 = time.time()
 		res = []
 		for truth in (True, False):
-			s = z3.Solver()
-			for d, t in decisions + ((rel, truth),):
-				e = self.expr(d)
-				s.add(e if t else z3.Not(e))
+			s = self.solver_for(decisions + ((rel, truth),))
 			res.append(s.check() == z3.sat)
 			self.queries += 1
 		self.solver_time += time.time() - t0
@@ -115,10 +140,9 @@ class Keys:
 		return [(st, False)]
 
 	def model(self, st):
-		s = z3.Solver()
-		for d, t in st.aux.get("kpc", ()):
-			e = self.expr(d)
-			s.add(e if t else z3.Not(e))
+		s = self.solver_for(st.aux.get("kpc", ()))
+		for v in self.vars:
+			s.add(self.dom(v))
 		self.queries += 1
 		if s.check() != z3.sat:
 			return None
@@ -150,6 +174,8 @@ class ObjModels:
 		ip.write_loc(st, (ref[0], ref[1], ref[2]), v)
 
 	def field(self, v, k):
+		if isinstance(v, tuple) and v and v[0] == "vec" and isinstance(k, tuple) and k[0] == "win":
+			return ("vec", v[1][k[1] : k[1] + k[2]])
 		if isinstance(v, tuple) and v and v[0] == "vec" and isinstance(k, int):
 			if k >= len(v[1]):
 				raise MirError("PANIC index %d out of bounds (len %d)" % (k, len(v[1])))
@@ -351,10 +377,13 @@ class ObjModels:
 			return NONE
 
 		def sort_by(ip, st, a):
-			"""entries sorted by (key, value) — std's sort_by and the derived Ord of Entry are trusted;
+			"""entries sorted by (key, value) — std's sort_by is trusted; the comparator is represented by
+			the order relation it implements (Object::sort's closure: `str` order; canonical_cmp: UTF-16
+			code-unit order — that canonical_cmp IS that order is the Kani harness c09_member_order_*);
 			the order of two keys is decided lazily by the solver"""
 			v = self.rd(ip, st, a[0])
 			out = []
+			lt = "lt16" if str(a[1]).endswith("canonical_cmp") else "lts"
 
 			def ins(s, done, rest):
 				# insertion sort with symbolic comparisons
@@ -377,8 +406,8 @@ class ObjModels:
 							else:
 								place(s3, pos - 1)
 						else:
-							for s4, lt in self.keys.split(s3, "lt", ky, kx):
-								if lt:
+							for s4, less in self.keys.split(s3, lt, ky, kx):
+								if less:
 									ins(s4, done[:pos] + [x] + done[pos:], rest[1:])
 								else:
 									place(s4, pos - 1)
@@ -400,9 +429,100 @@ class ObjModels:
 			fn = prog.next_of(self.rd(ip, st, a[0]))
 			return [(st, CallFn(fn, [a[0]]))]
 
-		return {
+		def obj_iter_mut(ip, st, a):
+			return Agg("IterMut", None, (Ref(a[0][0], a[0][1], a[0][2] + (0,)), 0))
+
+		def iter_mut_next(ip, st, a):
+			it = self.rd(ip, st, a[0])
+			vec_ref, pos = it.fields
+			v = self.rd(ip, st, vec_ref)
+			if pos >= len(v[1]):
+				return NONE
+			self.wr(ip, st, a[0], Agg("IterMut", None, (vec_ref, pos + 1)))
+			e = Ref(vec_ref[0], vec_ref[1], vec_ref[2] + (pos,))
+			return some(Agg("tuple", None, (Ref(e[0], e[1], e[2] + (0,)), Ref(e[0], e[1], e[2] + (1,)))))
+
+		def windows(ip, st, a):
+			return Agg("Windows", None, (a[0], a[1], 0))
+
+		def windows_all(ip, st, a):
+			w = self.rd(ip, st, a[0]) if isinstance(a[0], Ref) else a[0]
+			vec_ref, size, _ = w.fields
+			n = len(self.rd(ip, st, vec_ref)[1])
+			c = ip.fn_value_call(a[1], [None])
+			if c is None:
+				raise MirError("Windows::all with %r" % (a[1],))
+			out = []
+			work = [(st, 0)]
+			while work:
+				s, pos = work.pop()
+				if pos + size > n:
+					out.append((s, True))
+					continue
+				win = Ref(vec_ref[0], vec_ref[1], vec_ref[2] + (("win", pos, size),))
+				for s2, r in ip.run_sub(s, c.fn, [c.args[0], win]):
+					for s3, t in (ip.sym.split(s2, r) if not isinstance(r, bool) else [(s2, r)]):
+						if t:
+							work.append((s3, pos + 1))
+						else:
+							out.append((s3, False))
+			return out
+
+		def window_index(ip, st, a):
+			w = a[0] if isinstance(a[0], Agg) else self.rd(ip, st, a[0])
+			if isinstance(w, Agg) and w.ty == "Window":
+				vec_ref, pos, size = w.fields
+				if a[1] >= size:
+					raise MirError("PANIC window index out of bounds")
+				return Ref(vec_ref[0], vec_ref[1], vec_ref[2] + (pos + a[1],))
+			return vec_index(ip, st, a)
+
+		def key_cmp(op):
+			def f(ip, st, a):
+				x = self.rd(ip, st, a[0]) if isinstance(a[0], Ref) else a[0]
+				y = self.rd(ip, st, a[1]) if isinstance(a[1], Ref) else a[1]
+				while isinstance(x, Ref):
+					x = self.rd(ip, st, x)
+				while isinstance(y, Ref):
+					y = self.rd(ip, st, y)
+				kx, ky = key_of(x), key_of(y)
+				out = []
+				for s, eq in self.keys.split(st, "eq", kx, ky):
+					if eq:
+						out.append((s, op in ("le", "ge")))
+						continue
+					for s2, lt in self.keys.split(s, "lts", kx, ky):
+						out.append((s2, lt if op in ("lt", "le") else not lt))
+				return out
+
+			return f
+
+		extra = {}
+		for t in ("<SmallString as PartialOrd>", "<str as PartialOrd>", "<&str as PartialOrd>", "core::str::<impl PartialOrd for str>", "std::cmp::impls::<impl PartialOrd<&str> for &str>",
+		          "std::cmp::impls::<impl PartialOrd for &str>", "std::cmp::impls::<impl PartialOrd<&B> for &A>", "core::cmp::impls::<impl PartialOrd<&B> for &A>"):
+			for op in ("lt", "le", "gt", "ge"):
+				extra["%s::%s" % (t, op)] = key_cmp(op)
+
+		base = {
+			"Object::iter_mut": one(obj_iter_mut),
+			"<object::IterMut as IntoIterator>::into_iter": one(lambda ip, st, a: a[0]),
+			"<object::IterMut as Iterator>::next": one(iter_mut_next),
+			"Value::canonicalize_with": one(lambda ip, st, a: UNIT),
+			"ryu_js::Buffer::new": one(lambda ip, st, a: ("buffer",)),
+			"core::slice::windows": one(windows),
+			"std::slice::windows": one(windows),
+			"<std::slice::Windows as Iterator>::all": windows_all,
+			"<core::slice::Windows as Iterator>::all": windows_all,
+			"<Windows as Iterator>::all": windows_all,
+			"<[object::Entry] as Index>::index": one(window_index),
+			"SmallString::as_str": one(lambda ip, st, a: a[0]),
+			"<SmallString as Deref>::deref": one(lambda ip, st, a: a[0]),
+		}
+		base.update(extra)
+		base.update({
 			"@field": self.field,
 			"@update": self.update,
+			"@len": lambda ip, st, a: len(self.rd(ip, st, a)[1]),
 			"Vec::len": one(vec_len),
 			"Vec::push": one(vec_push),
 			"Vec::insert": one(vec_insert),
@@ -433,7 +553,8 @@ class ObjModels:
 			"<&mut RemovedByInsertFront as Iterator>::last": iter_last,
 			"<&mut RemovedEntries as Iterator>::last": iter_last,
 			"<RemovedEntries as Iterator>::next": iter_next,
-		}
+		})
+		return base
 
 
 LAST_TEMPLATE = """fn synthetic_last(_1: &mut I) -> Option<T> {
@@ -464,7 +585,7 @@ LAST_TEMPLATE = """fn synthetic_last(_1: &mut I) -> Option<T> {
 
 class ObjProgram:
 	NAMES = ["push", "push_entry", "push_front", "push_entry_front", "remove_at", "insert", "insert_front", "remove", "remove_unique", "sort",
-	         "index_of", "redundant_index_of", "from_vec"]
+	         "index_of", "redundant_index_of", "from_vec", "canonicalize_with"]
 
 	def __init__(self, fns):
 		self.fns = fns
@@ -542,7 +663,7 @@ def struct_fields(repo):
 # ---------------------------------------------------------------------------
 # the list model and the exploration of histories
 
-OPS = ["push", "push_front", "remove_at", "insert", "insert_front", "remove", "remove_unique", "sort"]
+OPS = ["push", "push_front", "remove_at", "insert", "insert_front", "remove", "remove_unique", "sort", "canon"]
 
 
 class Explorer:
@@ -639,6 +760,10 @@ class Explorer:
 		return out, bad
 
 	def violation(self, st, history, label, detail):
+		if history and history[-1][0] == "canon" and label.startswith("C06:object-equals"):
+			label = "C06+C10:index-canonical-and-queryable-after-canonicalization"
+		if sum(1 for v in self.violations if v["label"] == label) >= 3:
+			return
 		self.violations.append(dict(label=label, detail=detail, history=history, keys=self.keys.model(st), key_decisions=[[list(d), t] for d, t in st.aux.get("kpc", ())]))
 
 	def step(self, st, model, history, op, arg):
@@ -739,7 +864,24 @@ class Explorer:
 					if sorted(got, key=lambda e: (e[1],)) != sorted(model, key=lambda e: (e[1],)):
 						self.violation(s, h2, "C06:sort-keeps-the-entries", "entries %r, list model %r" % (got, model))
 						continue
-					nxt.append((s, got))
+					for s2, bad in self.sorted_by(s, got, "lts"):
+						if bad:
+							self.violation(s2, h2, "C06:sort-orders-entries-by-key-then-value", "after sort: %r" % (got,))
+						else:
+							nxt.append((s2, got))
+			elif op == "canon":
+				st.frames[0].locals[4] = ("buffer",)
+				for s, res in self.call(st, prog.by["canonicalize_with"], [Ref(0, 1, ()), Ref(0, 4, ())]):
+					got = [(key_of(e.fields[0]), e.fields[1]) for e in self.obj(s).fields[0][1]]
+					if sorted(got, key=lambda e: (e[1],)) != sorted(model, key=lambda e: (e[1],)):
+						self.violation(s, h2, "C10:canonicalization-keeps-the-entries", "entries %r, list model %r" % (got, model))
+						continue
+					# members must be in UTF-16 code-unit order of their keys (ties by value): decided by the solver
+					for s2, bad in self.sorted_by(s, got, "lt16"):
+						if bad:
+							self.violation(s2, h2, "C09:members-sorted-by-utf16-code-units", "after canonicalization: %r" % (got,))
+						else:
+							nxt.append((s2, got))
 			else:
 				raise MirError("op " + op)
 		except MirError as e:
@@ -763,6 +905,30 @@ class Explorer:
 				self.violation(s3, h2, "C06:object-equals-list-model-and-index-canonical", d)
 			for s3 in oks:
 				out.append((s3, m2, h2))
+		return out
+
+	def sorted_by(self, st, entries, rel):
+		"""[(state, bad)] — bad iff some adjacent pair is out of order under `rel` (ties by value)"""
+		out = []
+		work = [(st, 0)]
+		while work:
+			s, j = work.pop()
+			if j + 1 >= len(entries):
+				out.append((s, False))
+				continue
+			(ka, va), (kb, vb) = entries[j], entries[j + 1]
+			for s2, eq in self.keys.split(s, "eq", ka, kb):
+				if eq:
+					if va <= vb:
+						work.append((s2, j + 1))
+					else:
+						out.append((s2, True))
+					continue
+				for s3, lt in self.keys.split(s2, rel, ka, kb):
+					if lt:
+						work.append((s3, j + 1))
+					else:
+						out.append((s3, True))
 		return out
 
 	def same_entry(self, e, want):
@@ -814,23 +980,27 @@ class Explorer:
 				if op in ("push", "push_front"):
 					choices.append((op, None))
 				elif op in ("insert", "insert_front"):
-					for c in (0, 1, 3):
+					for c in (0, 2):
 						choices.append((op, c))
 				elif op == "remove_at":
 					for i in range(n + 1):
 						choices.append((op, i))
 				elif op in ("remove", "remove_unique"):
 					if op == "remove":
-						for c in (0, 1, 3):
+						for c in (0, 2):
 							choices.append((op, (nk, c)))
 					else:
 						choices.append((op, (nk, 0)))
-				elif n >= 2:
-					choices.append(("sort", None))
+				elif op == "sort":
+					if n >= 2:
+						choices.append(("sort", None))
+				elif op == "canon":
+					if n >= 2 and "canonicalize_with" in self.prog.by:
+						choices.append(("canon", None))
 			for op, arg in choices:
 				for s2, m2, h2 in self.step(s.fork(), list(model), list(hist), op, arg):
 					work.append((s2, m2, h2))
-				if len(self.violations) >= 10:
+				if len(self.violations) >= 12:
 					return
 			if budget and time.time() - t0 > budget:
 				self.timed_out = True
@@ -844,8 +1014,7 @@ class Explorer:
 def concrete_ops(history, keyvals):
 	"""history (as recorded by Explorer.step) -> op tokens of the native helper; keys are named
 	order-preservingly (the solver's integers -> 'a', 'b', ... by rank)"""
-	rank = {v: i for i, v in enumerate(sorted(set(keyvals)))}
-	name = lambda k: chr(ord("a") + rank[keyvals[k]])
+	name = lambda k: chr(keyvals[k])
 	ops = []
 	nk = 0
 	for tag, (op, arg) in enumerate(history):
@@ -863,6 +1032,8 @@ def concrete_ops(history, keyvals):
 		elif op == "remove_unique":
 			ops.append("remove_unique:%s" % name(arg[0]))
 			nk = max(nk, arg[0] + 1)
+		elif op == "canon":
+			ops.append("canon")
 		else:
 			ops.append("sort")
 	return ops
@@ -921,6 +1092,9 @@ def expected_lines(ops):
 			removed = [m[i] for i in ps]
 			m[:] = [e for i, e in enumerate(m) if i not in ps]
 			r = "ok:none" if not ps else ("ok:" + kv(removed[0]) if len(ps) == 1 else "dup:%s,%s" % (kv(removed[0]), kv(removed[1])))
+		elif f[0] == "canon":
+			m.sort(key=lambda e: (e[0].encode("utf-16-be"), e[1]))
+			r = "-"
 		else:
 			m.sort()
 			r = "-"
@@ -953,7 +1127,7 @@ def main():
 	out = dict(ok=False, violations=[], error=None)
 	t0 = time.time()
 	try:
-		text, dt = (open(a.mir).read(), 0.0) if a.mir else drvcheck.dump_mir(a.repo, a.build)
+		text, dt = (open(a.mir).read(), 0.0) if a.mir else drvcheck.dump_mir(a.repo, a.build, features="canonicalize")
 		out["mir_dump_s"] = round(dt, 1)
 		ex = Explorer(a.repo, text)
 		out["functions_encoded"] = ex.prog.encoded()
@@ -965,7 +1139,7 @@ def main():
 		bad = []
 		for hist, kv in ex.samples:
 			while len(kv) < 8:
-				kv.append(max(kv + [0]) + 1)
+				kv.append(0x41 + len(kv))
 			r = replay_history(native, hist, kv)
 			if r["reproduced"]:
 				bad.append(r)
@@ -973,7 +1147,7 @@ def main():
 		for v in ex.violations:
 			kv = list(v.get("keys") or [])
 			while len(kv) < 8:
-				kv.append(max(kv + [0]) + 1)
+				kv.append(0x41 + len(kv))
 			v["native"] = replay_history(native, v["history"], kv)
 		if bad and not ex.violations:
 			raise MirError("translator validation failed: the real Object deviates from the list model on a history the interpreter passes: %s" % json.dumps(bad[0]))
